@@ -149,7 +149,10 @@ func GenerateBlumPrime[E algebra.NatPlusLike[E]](set PrimeSamplable[E], bits uin
 	}
 	checks := MillerRabinChecks(bits)
 	numBytes := (bits + 7) / 8
-	topBits := max(bits%8, 8)
+	topBits := bits % 8 // number of significant bits in the most significant byte
+	if topBits == 0 {
+		topBits = 8
+	}
 	topByteMask := byte((1 << topBits) - 1)
 	topByteMSB := byte(1) << (topBits - 1)
 	buf := make([]byte, numBytes)
